@@ -1837,7 +1837,9 @@ static void gen(const char *pr, struct sim_rng *r, struct sim_plan *p)
         else if (c < 92) sim_plan_add(p, 0, OP_SINK_MODE, sim_rng_below(r, NSINK), sim_rng_below(r, 2), 0, 0, 0, 0);
         else if (c < 95) sim_plan_add(p, 0, OP_ATTACH, sim_rng_below(r, 4), 0, 0, 0, 0, 0);
         else if (c < 97) sim_plan_add(p, 0, OP_OPTION, sim_rng_below(r, 3), sim_rng_below(r, 8), 0, 0, 0, 0);
-        else if (c < 99 && p->cfg[CFG_PROP] != 5) sim_plan_add(p, 0, OP_RELEASE, 0, 0, 0, 0, 0, 0);
+        else if (c < 98 && p->cfg[CFG_PROP] != 5) sim_plan_add(p, 0, OP_RELEASE, 0, 0, 0, 0, 0, 0);
+        /* (also for the lifetime properties: release while an output holds buffers
+         * and a blocker on one of the pipe's pumps) */
         else if (c < 99) sim_plan_add(p, 0, OP_SINK_BLOCK, sim_rng_below(r, NSINK), sim_rng_chance(r, 2, 3), 0, 0, 0, 0);
         else sim_plan_add(p, 0, OP_RELEASE, 0, 0, 0, 0, 0, 0);
     }
